@@ -3,7 +3,7 @@
    (start end chromosome gene). *)
 From CNV Require Import Base.Prelude Base.Val Base.Str Model.IvRow Model.Intervals
   Model.Target Model.Antitarget.
-From CNV Require Gen.BinsDefaults.
+From CNV Require Gen.BinsDefaults Model.Chromsort.
 
 Definition c12_getRow (v : val) : option grow :=
   match v with
@@ -59,6 +59,47 @@ Definition e_c12_antitarget (v : val) : val :=
                | AntiNeedOracle => VErr "oracle needed: non-integral MIN_REF_COVERAGE"
                end
       | _, _, _, _, _ => bad_input
+      end
+  | _ => bad_input
+  end.
+
+(* [split; avg; baits; cuts; annotation rows as read] -> rows of do_target(..., annotate=...) *)
+Definition e_c12_target_annot (v : val) : val :=
+  match v with
+  | VL [VB split; avg; baits; cuts; annot] =>
+      match getQ avg, c12_getRows baits, c12_getCuts cuts, c12_getRows annot with
+      | Some a, Some b, Some cs, Some an =>
+          if Qle_bool a 0 then VErr "avg_size <= 0"
+          else match do_target_full (fun l => hd EmptyString l) split a (c12_lookup_cut cs) (Some an) false b with
+               | AnnotRows rows => c12_vRows rows
+               | AnnotValueError => VErr "ValueError"
+               end
+      | _, _, _, _ => bad_input
+      end
+  | _ => bad_input
+  end.
+
+(* labels -> per position the single name the code emits whatever the set order, or None *)
+Definition e_c12_shorten_det (v : val) : val :=
+  match getList getS v with
+  | Some labels => VL (map (fun o => match o with Some x => VS x | None => VNone end) (shorten_labels_det labels))
+  | None => bad_input
+  end.
+
+(* chromosome name -> (key number, key string) of sorter_chrom *)
+Definition e_c12_chrom_key (v : val) : val :=
+  match getS v with
+  | Some c => let k := Model.Chromsort.chrom_key c in VL [VZ (fst k); VS (snd k)]
+  | None => bad_input
+  end.
+
+(* [avg; span] -> int(round(span / avg)) or 1, exactly *)
+Definition e_c12_nbins (v : val) : val :=
+  match v with
+  | VL [avg; VZ span] =>
+      match getQ avg with
+      | Some a => if Qle_bool a 0 then VErr "avg_size <= 0" else VZ (nbins_q a span)
+      | None => bad_input
       end
   | _ => bad_input
   end.
